@@ -90,6 +90,94 @@ def _random_problem(rng, h, w):
     return _pb(h, w, wv, wh, mark, s, g)
 
 
+def _winding_rooms(rng, h, w):
+    """a problem whose tiles are a few large winding rooms (walls exactly between different rooms of a random partition
+    into 2-4 connected rooms; sometimes a wall stub inside a room is added): room shapes with several arms, which no
+    random wall pattern produces"""
+    rooms = L.random_rooms(rng, h, w, rng.choice([2, 2, 3, 3, 4]))
+    rid = {}
+    for i, r in enumerate(rooms):
+        for (y, x) in r:
+            rid[(y, x)] = i
+    wv = [[1 if rid[(y, x)] != rid[(y, x + 1)] else 0 for x in range(w - 1)] for y in range(h)]
+    wh = [[1 if rid[(y, x)] != rid[(y + 1, x)] else 0 for x in range(w)] for y in range(h - 1)]
+    if rng.random() < 0.3 and h > 1:
+        y, x = rng.randrange(h - 1), rng.randrange(w)
+        wh[y][x] = 1                       # a dangling wall segment inside a room changes nothing
+    cs = _cells(h, w)
+    s = rng.choice(cs)
+    g = rng.choice([c for c in cs if c != s])
+    mark = [[0] * w for _ in range(h)]
+    for (y, x) in rng.sample(cs, rng.choice([0, 0, 1, 2])):
+        if (y, x) not in (s, g):
+            mark[y][x] = rng.choice([1, 2])
+    return _pb(h, w, wv, wh, mark, s, g)
+
+
+def _comb_rooms(rng, h, w, up=True):
+    """one room made of a full row (the bottom one, or the top one) and teeth on every other column reaching to the
+    opposite side; every other cell is a room of its own or joins the cell below / above it.  In row-major order the
+    teeth of an upward comb appear as separate pieces that are joined only by the last row."""
+    base = h - 1 if up else 0
+    comb = {(base, x) for x in range(w)}
+    for x in range(0, w, 2):
+        for y in range(h):
+            comb.add((y, x))
+    rid = {}
+    nxt = 1
+    for y in range(h):
+        for x in range(w):
+            if (y, x) in comb:
+                rid[(y, x)] = 0
+            elif y > 0 and (y - 1, x) not in comb and rng.random() < 0.5:
+                rid[(y, x)] = rid[(y - 1, x)]
+            else:
+                rid[(y, x)] = nxt
+                nxt += 1
+    wv = [[1 if rid[(y, x)] != rid[(y, x + 1)] else 0 for x in range(w - 1)] for y in range(h)]
+    wh = [[1 if rid[(y, x)] != rid[(y + 1, x)] else 0 for x in range(w)] for y in range(h - 1)]
+    cs = _cells(h, w)
+    s = rng.choice(cs)
+    g = rng.choice([c for c in cs if c != s])
+    return _pb(h, w, wv, wh, [[0] * w for _ in range(h)], s, g)
+
+
+def _hook_rooms(rng, h, w):
+    """one room made of a full column, a full row meeting it in a corner, and one or two single cells hanging off the row
+    towards the inside (a hook whose pieces meet only late in any scan order); the whole board is then mirrored /
+    transposed at random; the other cells form rooms of one or two cells"""
+    room = {(y, w - 1) for y in range(h)} | {(h - 1, x) for x in range(w)}
+    for c in rng.sample(range(1, w - 1), min(rng.choice([1, 1, 2]), max(0, w - 2))):
+        if h >= 3:
+            room.add((h - 2, c))
+    rid, nxt = {}, 1
+    for y in range(h):
+        for x in range(w):
+            if (y, x) in room:
+                rid[(y, x)] = 0
+            elif x > 0 and (y, x - 1) not in room and rng.random() < 0.4:
+                rid[(y, x)] = rid[(y, x - 1)]
+            else:
+                rid[(y, x)] = nxt
+                nxt += 1
+    fy, fx, tr = rng.random() < 0.5, rng.random() < 0.5, (rng.random() < 0.5)
+
+    def src(y, x):
+        yy, xx = (h - 1 - y if fy else y), (w - 1 - x if fx else x)
+        return rid[(yy, xx)]
+    H, W = h, w
+    get = src
+    if tr:
+        H, W = w, h
+        get = lambda y, x: src(x, y)     # noqa: E731
+    wv = [[1 if get(y, x) != get(y, x + 1) else 0 for x in range(W - 1)] for y in range(H)]
+    wh = [[1 if get(y, x) != get(y + 1, x) else 0 for x in range(W)] for y in range(H - 1)]
+    cs = _cells(H, W)
+    s_ = rng.choice(cs)
+    g_ = rng.choice([c for c in cs if c != s_])
+    return _pb(H, W, wv, wh, [[0] * W for _ in range(H)], s_, g_)
+
+
 def _nbrs(h, w, c):
     y, x = c
     return [(y + dy, x + dx) for dy, dx in ((-1, 0), (1, 0), (0, -1), (0, 1)) if 0 <= y + dy < h and 0 <= x + dx < w]
@@ -192,6 +280,16 @@ def families(tier, rng):
             pb = _planted(rng, h, w, many_marks=(i % 4 == 0))
             if pb is not None:
                 yield _strip(pb)
+    for (h, w) in [(3, 3), (3, 4), (4, 3), (4, 4), (3, 5), (5, 3)]:
+        for _ in range(40 if th else 8):
+            yield _winding_rooms(rng, h, w)
+    for (h, w) in [(3, 4), (3, 5), (4, 4)]:
+        for _ in range(24 if th else 8):
+            yield _hook_rooms(rng, h, w)
+    for (h, w) in [(2, 5), (3, 5), (2, 7), (3, 4), (4, 3)]:
+        for up in (True, False):
+            for _ in range(4 if th else 2):
+                yield _comb_rooms(rng, h, w, up)
     # no clue at all / every wall / no wall
     for (h, w) in [(2, 3), (3, 3), (3, 4)]:
         for p in (0.0, 1.0):
